@@ -510,6 +510,8 @@ def eval_exact(t, env=None, prims=None):
     if h == "not":
         return not eval_exact(t[1], env, prims)
     if h == "call":
+        if t[1] == "bool" and len(t) == 3:
+            return bool(eval_exact(t[2], env, prims))
         if t[1] in ("floor", "int", "abs", "mod", "float", "round"):
             args = [eval_exact(x, env, prims) for x in t[2:]]
             if t[1] == "floor":
@@ -599,3 +601,34 @@ def formula_dnf(f, limit=256):
     except OverflowError:
         return None
     return [a for a in out if not any((t, not q) in a for t, q in a)]
+
+
+def with_new_helpers(repo, mod, fn, depth=3):
+    """fn plus the FunctionDefs of the helpers it (transitively) calls that are not in the frozen inventory - the code a
+    refactoring may have moved out of fn.  For syntax-level rules that look for a construct 'inside fn'."""
+    from .symx import inventory
+    m = repo.mod(mod)
+    inv = inventory().get(mod)
+    out, seen = [fn], {id(fn)}
+    frontier = [fn]
+    for _ in range(depth):
+        nxt = []
+        for f in frontier:
+            for n in ast.walk(f):
+                if isinstance(n, ast.Call):
+                    nm = n.func.attr if isinstance(n.func, ast.Attribute) else n.func.id if isinstance(n.func, ast.Name) else None
+                    if nm is None:
+                        continue
+                    for q, g in m.functions.items():
+                        if q.split(".")[-1] == nm and (inv is None or q not in inv["functions"]) and id(g) not in seen:
+                            seen.add(id(g))
+                            out.append(g)
+                            nxt.append(g)
+        frontier = nxt
+    return out
+
+
+def walk_with_helpers(repo, mod, fn):
+    for f in with_new_helpers(repo, mod, fn):
+        for n in ast.walk(f):
+            yield n
